@@ -147,6 +147,7 @@ def build(run):
         ("inner(outer(u,u), A)", lambda: inner(outer(u, u), A)), ("x-dependent", lambda: x[0] * f * f + x[1] * f), ("hessian", lambda: grad(grad(f))[i, j] * A[i, j] * f),
         ("abs", lambda: abs(f) * g), ("as_vector", lambda: as_vector([f * f, f * g])[i] * u[i]), ("power 0.5", lambda: (1 + f * f) ** 0.5),
         ("restricted-free facet normal", lambda: f * f * n[0]),
+        ("inner(grad A, grad A)", lambda: inner(grad(A), grad(A))), ("A : grad(u) + div(A).u", lambda: inner(A, grad(u)) + dot(div(A), u)),
     ]
 
     def e2e(name, mkform_and_seed, nlayers=1):
@@ -190,7 +191,7 @@ def build(run):
             e2e(f"derivative/component u[1]/{inm}", lambda mk=mk: (mk() * dx, derivative(mk() * dx, u[1], vf), [comp_seed(u, {(1,): (vf, ())})]))
             e2e(f"derivative/second (u,u)/{inm}", lambda mk=mk: (mk() * dx, derivative(derivative(mk() * dx, u, vu), u, v2u),
                                                                 [whole(u, vu), whole(u, v2u)]))
-        if inm in ("A:A f", "u A u", "det(A)", "inner(outer(u,u), A)", "hessian"):
+        if inm in ("A:A f", "u A u", "det(A)", "inner(outer(u,u), A)", "hessian", "inner(grad A, grad A)", "A : grad(u) + div(A).u"):
             e2e(f"derivative/whole A/{inm}", lambda mk=mk: (mk() * dx, derivative(mk() * dx, A, vA), [whole(A, vA)]))
             e2e(f"derivative/component A[0,1]/{inm}", lambda mk=mk: (mk() * dx, derivative(mk() * dx, A[0, 1], vf), [comp_seed(A, {(0, 1): (vf, ())})]))
     for inm, mk in integrands[:12]:
@@ -306,6 +307,16 @@ def build(run):
             if how == "mixed argument" and order == "f,u":
                 continue
             e2e(f"derivative/tuple ({order}) in the direction of one argument: {how}", tuple_mixed_direction(order, how))
+
+    def two_components_of_A():
+        F = (inner(grad(A), grad(A)) + A[0, 0] * A[0, 1] * f) * dx
+        return F, derivative(F, (A[0, 0], A[0, 1]), (vf, v2f)), [comp_seed(A, {(0, 0): (vf, ()), (0, 1): (v2f, ())})]
+    e2e("derivative/two components of one row of A (gradients in the integrand)", two_components_of_A)
+
+    def column_of_A():
+        F = (inner(grad(A), grad(A)) + dot(div(A), u)) * dx
+        return F, derivative(F, (A[0, 1], A[1, 1]), (vu[0], vu[1])), [comp_seed(A, {(0, 1): (vu, (0,)), (1, 1): (vu, (1,))})]
+    e2e("derivative/a column of A in the direction of a vector argument's components (gradients in the integrand)", column_of_A)
 
     def two_components():
         F = (u[0] * u[1] * f + u[1] ** 3) * dx
